@@ -573,7 +573,11 @@ def replay_c02(d, case):
                 return True, 'cells[%d] file/offset of box %d = %s %s, expected %s %s' % (l, b, c['files'][b], c['offsets'][b], fname, off)
             if maxmins:
                 for f in range(len(keys)):
-                    if not close(c['mins'][keys[f]][b], E['mins'][l][b][f]) or not close(c['maxs'][keys[f]][b], E['maxs'][l][b][f]):
+                    try:
+                        vmin, vmax = c['mins'][keys[f]][b], c['maxs'][keys[f]][b]
+                    except Exception as e:
+                        return True, 'cells[%d] min/max of field %d is not a per-box table (%s: %s)' % (l, f, type(e).__name__, e)
+                    if not close(vmin, E['mins'][l][b][f]) or not close(vmax, E['maxs'][l][b][f]):
                         return True, 'cells[%d] min/max of field %d box %d' % (l, f, b)
     return False, 'metadata equal'
 
@@ -725,7 +729,13 @@ def replay_c07(d, case):
         del junk
         with contextlib.redirect_stdout(io.StringIO()):
             try:
-                out = Mandoline(os.path.join(d, 'plt'), fields=list(fields), limit_level=limit, serial=serial, verbose=0).slice(normal=cn, pos=pos, fformat='return')
+                mnd = Mandoline(os.path.join(d, 'plt'), fields=list(fields), limit_level=limit, serial=serial, verbose=0)
+                for pn, pp in case.get('prior') or []:
+                    try:
+                        mnd.slice(normal=pn, pos=pp, fformat='return')
+                    except Exception:
+                        pass
+                out = mnd.slice(normal=cn, pos=pos, fformat='return')
             except ValueError as e:
                 if not inside:
                     return False, 'refused as required'
